@@ -139,12 +139,25 @@ package stor
 // storInv without the upper bound on the cursor (a failed attempt has pushed it past the chunk end)
 //@ spec storInvW(s *Stor) bool = 0 < s.shift && s.shift < 40 && s.chunksize == pow2(s.shift) && s.chunksize == gChunkSize && typeis(s.chunks.v, "[][]byte") && 0 <= s.allocChunk.v && s.allocChunk.v < 1000000 && len(unbox(s.chunks.v, "[][]byte")) == s.allocChunk.v + 1 && (forall k :: 0 <= k && k < len(unbox(s.chunks.v, "[][]byte")) ==> len(unbox(s.chunks.v, "[][]byte")[k]) == s.chunksize)
 
+// Interference contract (rely/guarantee style): across EVERY atomic write that
+// extend and Alloc perform on the shared cursor state, (1) allocChunk moves by
+// at most one, (2) a chunk is published (allocChunk advanced) only after it is
+// in the chunk table and without touching size, (3) size is only ever rewound
+// to a position beyond every published chunk - so no window handed out to a
+// concurrent allocator (all of which lie in published chunks) can be handed out
+// again - and (4) the chunk table only grows. The obligations are discharged per
+// atomic step; the argument from these guarantees to "no two concurrent
+// allocations overlap" is by hand (DESIGN.md).
 //@ func (s *Stor) extend(allocChunk)
 //@   mode int
 //@   requires s != nil && s.impl != nil && storInvW(s) && allocChunk == s.allocChunk.v && allocChunk < 999999
 //@   modifies all
 //@   ensures! extended: storInvW(s) && s.allocChunk.v == allocChunk + 1 && s.size.v == uint64(allocChunk + 1) << uint64(s.shift) && s.shift == old(s.shift) && s.chunksize == old(s.chunksize)
 //@   ensures! old_chunks_kept: forall k :: 0 <= k && k <= allocChunk ==> unbox(s.chunks.v, "[][]byte")[k] == old(unbox(s.chunks.v, "[][]byte")[k])
+//@   guarantee chunk_monotone: s.allocChunk.v == old(s.allocChunk.v) || s.allocChunk.v == old(s.allocChunk.v) + 1
+//@   guarantee publish_after_map: s.allocChunk.v != old(s.allocChunk.v) ==> s.size.v == old(s.size.v) && len(unbox(s.chunks.v, "[][]byte")) > s.allocChunk.v
+//@   guarantee rewind_unpublished: s.size.v < old(s.size.v) ==> s.size.v >= (uint64(s.allocChunk.v) + 1) << uint64(s.shift)
+//@   guarantee table_grows: typeis(s.chunks.v, "[][]byte") && len(unbox(s.chunks.v, "[][]byte")) >= len(old(unbox(s.chunks.v, "[][]byte"))) && forall k :: 0 <= k && k < len(old(unbox(s.chunks.v, "[][]byte"))) ==> unbox(s.chunks.v, "[][]byte")[k] == old(unbox(s.chunks.v, "[][]byte")[k])
 
 // Alloc: the returned window [offset, offset+n) lies inside one existing chunk,
 // starts at or after the previous cursor, and the slice has exactly n bytes of capacity
@@ -156,4 +169,8 @@ package stor
 //@   ensures! window: offset + uint64(n) == s.size.v && offset >= old(s.size.v)
 //@   ensures! no_straddle: (offset >> uint64(s.shift)) == ((offset + uint64(n) - 1) >> uint64(s.shift)) && int64(offset >> uint64(s.shift)) == s.allocChunk.v
 //@   ensures! exact_slice: len(buf) == n && cap(buf) == n && ref(buf) == ref(unbox(s.chunks.v, "[][]byte")[offset >> uint64(s.shift)]) && off(buf) == off(unbox(s.chunks.v, "[][]byte")[offset >> uint64(s.shift)]) + (offset & (s.chunksize - 1))
+//@   guarantee chunk_monotone: s.allocChunk.v == old(s.allocChunk.v) || s.allocChunk.v == old(s.allocChunk.v) + 1
+//@   guarantee publish_after_map: s.allocChunk.v != old(s.allocChunk.v) ==> s.size.v == old(s.size.v) && len(unbox(s.chunks.v, "[][]byte")) > s.allocChunk.v
+//@   guarantee rewind_unpublished: s.size.v < old(s.size.v) ==> s.size.v >= (uint64(s.allocChunk.v) + 1) << uint64(s.shift)
+//@   guarantee table_grows: typeis(s.chunks.v, "[][]byte") && len(unbox(s.chunks.v, "[][]byte")) >= len(old(unbox(s.chunks.v, "[][]byte"))) && forall k :: 0 <= k && k < len(old(unbox(s.chunks.v, "[][]byte"))) ==> unbox(s.chunks.v, "[][]byte")[k] == old(unbox(s.chunks.v, "[][]byte")[k])
 //@   loop 0 unroll 3
